@@ -8,5 +8,6 @@ import SarpyModel.Props.C02
 import SarpyModel.Props.C10
 import SarpyModel.Props.C09
 import SarpyModel.Props.C08
+import SarpyModel.Props.C12
 import SarpyModel.Gen.NitfTables
 import SarpyModel.Drivers
